@@ -614,11 +614,28 @@ func c15Bridge(c *Ctx, p *Prog, m *Model) {
 			}
 			lenG, nlG := false, false
 			for _, g := range guardsOf(blk) {
-				d := m.guardDesc(g)
-				if strings.HasPrefix(d, "T:len(param "+nm(buf)+") > 0") || strings.HasPrefix(d, "T:len(param "+nm(buf)+") != 0") {
-					lenG = true
-				}
 				cond, neg := normCond(g.If.Cond)
+				// "the buffer is not empty", in any linear form: len(buf) > 0, len(buf) != 0, len(buf)-1 >= 0, ...
+				if bo, ok := cond.(*ssa.BinOp); ok {
+					if l, okL := linOf(bo.X); okL && len(l.atoms) == 1 {
+						isLen := false
+						for at, k := range l.atoms {
+							if call, ok := at.(*ssa.Call); ok && k == 1 && isBuiltinCall(call, "len") && call.Common().Args[0] == ssa.Value(buf) {
+								isLen = true
+							}
+						}
+						if z, isC := constInt(bo.Y); isC && isLen {
+							op := bo.Op
+							if (g.Succ == 0) == neg { // the condition is false on this edge
+								op = map[token.Token]token.Token{token.GTR: token.LEQ, token.GEQ: token.LSS, token.LSS: token.GEQ, token.LEQ: token.GTR, token.EQL: token.NEQ, token.NEQ: token.EQL}[op]
+							}
+							d := z - l.c // len(buf) op d
+							if (op == token.GTR && d >= 0) || (op == token.GEQ && d >= 1) || (op == token.NEQ && d == 0) {
+								lenG = true
+							}
+						}
+					}
+				}
 				if bo, ok := cond.(*ssa.BinOp); ok && bo.Op == token.EQL && (g.Succ == 0) != neg {
 					if v, ok := constInt(bo.Y); ok && v == '\n' {
 						if u, ok := bo.X.(*ssa.UnOp); ok {
